@@ -173,11 +173,12 @@ def w_matchgrid(case, opts):
     import random as _r
     out = []
     for p, f, seed in case["items"]:
-        rr = _r.Random(seed)
+        given = seed[1] if isinstance(seed, list) else None       # (["subjects", [...]]: these subjects instead of a sample)
+        rr = _r.Random(0 if given is not None else seed)
         ctx = E.new_context(None, None)
         ctx.set("P", p)
         ctx.set("F", f)
-        ctx.set("SUBJECTS", rr.sample(GRID_SUBJECTS, 3))
+        ctx.set("SUBJECTS", given if given is not None else rr.sample(GRID_SUBJECTS, 3))
         ctx.set("LIS", rr.sample(GRID_LASTINDEX, 5) + ["S.length + 1"])
         r = E.run_js(GRID_SCRIPT, {"log": False, "max_steps": 1_500_000}, ctx=ctx)
         ent = {"o": r["out"], "py": r.get("py")}
@@ -325,6 +326,17 @@ def main(ctx):
         gitems.append((p, rng.choice(GRID_FLAGS), ctx.seed * 100003 + i))
         if i % 3 == 0:
             gitems.append((p, rng.choice(["y", "gy", "yu"]), ctx.seed * 100003 + i + 1))
+    # case-insensitive matching over every character whose upper- or lower-case form is not one character, or crosses the ASCII
+    # boundary, or differs from its simple case folding (the host's str.upper/lower answer with strings the matcher must not choke on)
+    import unicodedata as _ud
+    specials = [chr(c) for c in range(0x80, 0x10000) if not (0xD800 <= c < 0xE000) and
+                (len(chr(c).upper()) != 1 or len(chr(c).lower()) != 1 or ord(chr(c).upper()[0]) < 0x80 or ord(chr(c).lower()[0]) < 0x80)]
+    chunks = ["".join(specials[i:i + 12]) for i in range(0, len(specials), 12)]
+    for p in ("[a-z]+", "[^a-z]", "[A-Z]", "[^A-Z0-9]+", "\\w+", "\\W", "[\\u0370-\\u03ff]+", "[^\\u0370-\\u03ff]", "[s-t]", "[\\u1f80-\\u1fff]", "(.)\\1", "ss|fi|i", "."):
+        for f in ("i", "gi", "iu", "giy", "im"):
+            for k in range(0, len(chunks), 3):
+                gitems.append((p, f, ["subjects", chunks[k:k + 3]]))
+    ctx.cov["matchgrid_special_casing_characters"] = len(specials)
     ep = engine_pool()
     try:
         gres = ep.map({"mod": "checks.C10", "fn": "w_matchgrid"}, [{"items": gitems[i:i + 25]} for i in range(0, len(gitems), 25)], batch=1, timeout=900, single_timeout=300)
